@@ -769,41 +769,9 @@ def run(repo, chk):
             else:
                 rm = [c for c in calls(f) if last_attr(c) == "remove_" + kind]
                 chk.expect(len(rm) == 1, "R-C15-4", "Model._decrement_%s removes the C++ leaf with remove_%s when the count reaches zero" % (kind, kind), loc(f))
-    for reg, rem in (("_register_constraint", "_remove_constraint"), ("_register_conditional_constraint", "_remove_conditional_constraint")):
-        f, g = mm.get(reg), mm.get(rem)
-        if f is None or g is None:
-            raise AnchorError("Model.%s / %s vanished" % (reg, rem))
-        chk.fn(f, g)
-        for kind in maps:
-            incs = [c for c in calls(f) if last_attr(c) == "_increment_" + kind]
-            chk.expect(bool(incs), "R-C15-4", "Model.%s increments %s leaves" % (reg, kind), loc(f))
-            for c in incs:
-                arg = unparse(c.args[0])
-                lp = c
-                recorded = False
-                while lp is not None and lp is not f:
-                    lp = getattr(lp, "_parent", None)
-                    if isinstance(lp, ast.For):
-                        if unparse(lp.iter) == "referenced_%ss" % kind:
-                            recorded = True
-                        for s in walk(lp):
-                            if isinstance(s, ast.Call) and last_attr(s) == "add" and unparse(s.func.value) == "referenced_%ss" % kind and s.args and unparse(s.args[0]) == arg:
-                                recorded = True
-                        break
-                chk.expect(recorded, "R-C15-4", "Model.%s records every incremented %s in referenced_%ss (line %d)" % (reg, kind, kind, c.lineno), loc(f, c),
-                           "a leaf incremented but not recorded is never decremented when the constraint is removed (stale C++ leaf / wrong reference count)")
-            stored = any(isinstance(s, ast.Assign) and unparse(s.targets[0]) == "self._%ss_referenced_by_con[con]" % kind and unparse(s.value) == "referenced_%ss" % kind for s in walk(f))
-            chk.expect(stored, "R-C15-4", "Model.%s stores referenced_%ss for the constraint" % (reg, kind), loc(f))
-            dec = False
-            for lp in walk(g):
-                if isinstance(lp, ast.For) and unparse(lp.iter) == "self._%ss_referenced_by_con[con]" % kind:
-                    dec = any(isinstance(c, ast.Call) and last_attr(c) == "_decrement_" + kind for c in walk(lp))
-            chk.expect(dec, "R-C15-4", "Model.%s decrements every recorded %s" % (rem, kind), loc(g))
-        rmc = "remove_if_else_constraint" if "conditional" in rem else "remove_constraint"
-        chk.expect(any(last_attr(c) == rmc for c in calls(g)), "R-C15-4", "Model.%s removes the C++ constraint with %s" % (rem, rmc), loc(g))
-        addc = "add_if_else_constraint" if "conditional" in reg else "add_constraint"
-        chk.expect(any(last_attr(c) == addc for c in calls(f)), "R-C15-4", "Model.%s creates the C++ constraint with %s" % (reg, addc), loc(f))
-    chk.floor("R-C15-4", 6 * 2 + 2 * (3 * 4 + 2))
+    # (which leaves a constraint registers, records and releases is decided on histories by R-C15-12: reference counts equal the number of recording constraints,
+    #  the evaluator holds exactly the referenced leaves, nothing dangles)
+    chk.floor("R-C15-4", 6 * 2)
 
     # ---------------------------------------------------------------- R-C15-5 dispatch parity
     sa_, da_ = mm.get("__setattr__"), mm.get("__delattr__")
@@ -847,6 +815,7 @@ def run(repo, chk):
     #     sub-expression is listed once: reverse differentiation visits every listed operator once);
     # (b) get_rpn builds each operator's program in a NEW list: an operand's program may be needed again by another parent.
     dag_rules(repo, chk, rpn_info)
+    pipeline_rules(repo, chk)
 
     # ---------------------------------------------------------------- R-C15-9 "changing values": an assignment always reaches the compiled object
     # Leaf._value is only a Python-side cache; the solver writes the live value into the compiled object without updating the cache, so the
@@ -1200,7 +1169,13 @@ def _expr_world(repo):
     from ..concrete import World, stdlib_overrides, Namespace
     ov, _state = stdlib_overrides()
     ov["six"] = Namespace("six", with_metaclass=lambda meta, *bases: (bases[0] if bases else object), string_types=(str,), integer_types=(int,))
-    return World(repo, ov, fuel=20000000)
+    world = World(repo, ov, fuel=20000000)
+    # collections.abc mix-ins (OrderedSet is a MutableSet): classes of the interpreted world, as in C14
+    from .c14 import ABC_MIXINS
+    from ..concrete import ClassRef
+    for cd in ast.parse(ABC_MIXINS).body:
+        world.overrides["collections.abc." + cd.name] = ClassRef(world.interp, cd, world.ctx(EXPR))
+    return world
 
 
 # expression DAGs with shared sub-expressions in every position (front / middle / end of the left operand's list, both sides, nested, through unary
@@ -1246,6 +1221,173 @@ def _dag_recipes():
         return o.add(o.pow(e, o.mul(z, 0.5)), o.mul(e, z))
     return [("e*(e + y)", r_front), ("(e + 1)*(e + 2)", r_both), ("(2x + e)*e", r_not_leading), ("(y*y + e + z/y) / (e*e)", r_middle),
             ("nested shares", r_nested), ("shared exp / sin", r_unary), ("two shared parts, other order", r_twice_right), ("shared base of a power", r_power)]
+
+
+# ------------------------------------------------------------------------------------------------ R-C15-12 the Python side, end to end, on fixtures
+def pipeline_rules(repo, chk):
+    """R-C15-12 (T3, bounded to the fixture history): an aml.Model is built, edited and evaluated by the repository's own Python code (aml.py / expr.py run by
+    sa/concrete.py) against sa/mockeval.py, a Python model of the compiled evaluator's protocol whose stack machine has the documented opcode semantics
+    (R-C15-1/-2 tie those to the C++ text).  After every step of a history -- build, values set through Var.value and through the x vector, a constraint removed
+    and another added, a parameter changed, constraints removed until a variable is released -- residual i equals the constraint reported at index i evaluated
+    by sympy, and Jacobian entry (i, j) its partial derivative by the variable reported at index j; the evaluator is never left with a dangling or a leaked leaf."""
+    import sympy as sp
+    from ..concrete import ProgramError, Instance, NDArr
+    from ..mockeval import MockEvaluator, MockEvaluatorError
+    world = _expr_world(repo)
+    for key in ("wntr.sim.aml.evaluator.Evaluator", "wntr.sim.aml.aml.Evaluator"):
+        world.overrides[key] = MockEvaluator
+    I = world.interp
+    V, P, Con, Model = (world.function(*a) for a in ((EXPR, "Var"), (EXPR, "Param"), (AML, "Constraint"), (AML, "Model")))
+    CE, ineq = world.function(EXPR, "ConditionalExpression"), world.function(EXPR, "inequality")
+    mfn = repo.cls(AML, "Model")
+    mfn._rel = AML
+
+    def b(node, a, c):
+        return I.binop(I._BIN, node, a, c, None)
+    add, sub, mul, div, pw = (lambda a, c, n=n: b(n(), a, c) for n in (ast.Add, ast.Sub, ast.Mult, ast.Div, ast.Pow))
+    fn = lambda name, a: I.call(world.function(EXPR, name), [a], {})
+    call = lambda obj, meth, *a, **k: I.call(I.getattr_(obj, meth), list(a), k)
+    sx, sy, sz, sp_, sq = sp.symbols("x y z p q", real=True)
+    state = {"n": 0}
+
+    def check(step, m, leaves, ref, values):
+        """ref: {constraint name: sympy expression or [(condition, expr), ..., (True, expr)]}"""
+        try:
+            call(m, "set_structure")
+            r = call(m, "evaluate_residuals")
+            J = call(m, "evaluate_jacobian")
+            dense = call(J, "toarray") if hasattr(J, "toarray") or isinstance(J, Instance) else J
+        except MockEvaluatorError as e:
+            chk.bad("R-C15-12", "model history, %s: the evaluator protocol is respected" % step, loc(mfn), "the compiled evaluator would read outside a leaf list / use a freed object here", found=str(e))
+            return
+        except ProgramError as e:
+            if isinstance(e.exc, MockEvaluatorError):
+                chk.bad("R-C15-12", "model history, %s: the evaluator protocol is respected" % step, loc(mfn), found="%s (line %s)" % (e, e.lineno))
+                return
+            raise ExtractError("R-C15-12 %s: the interpreted model code raised %s (line %s)" % (step, e, e.lineno))
+        r = list(r.v) if isinstance(r, NDArr) else list(r)
+        rows = [list(x.v) if isinstance(x, NDArr) else list(x) for x in (dense.v if isinstance(dense, NDArr) else dense)]
+        sub_ = {sym: values[nm] for nm, sym in (("x", sx), ("y", sy), ("z", sz), ("p", sp_), ("q", sq))}
+        bad_ = []
+        vidx = {nm: I.getattr_(leaf, "index") for nm, leaf in leaves.items() if nm in ("x", "y", "z")}
+        live = {nm: i for nm, i in vidx.items() if i is not None}
+        if sorted(live.values()) != list(range(len(live))) or len(rows) != len(ref) or any(len(rw) != len(live) for rw in rows):
+            bad_.append("indices %s for a %dx%d Jacobian" % (vidx, len(rows), len(rows[0]) if rows else 0))
+        else:
+            for cname, e in ref.items():
+                i = I.getattr_(I.getattr_(m, cname), "index")
+                if isinstance(e, list):
+                    e = next(ex for cond, ex in e if cond is True or bool(cond.subs(sub_)))
+                want = float(e.subs(sub_))
+                if not (isinstance(i, int) and 0 <= i < len(r)) or abs(r[i] - want) > 1e-9 * max(1.0, abs(want)):
+                    bad_.append("residual of %s (row %s): %r, direct evaluation %r" % (cname, i, r[i] if isinstance(i, int) and 0 <= i < len(r) else None, want))
+                    continue
+                for nm, sym in (("x", sx), ("y", sy), ("z", sz)):
+                    if nm not in live:
+                        continue
+                    wd = float(sp.diff(e, sym).subs(sub_))
+                    got = rows[i][live[nm]]
+                    if abs(got - wd) > 1e-9 * max(1.0, abs(wd)):
+                        bad_.append("d %s / d %s (row %s, column %s): %r, true derivative %r" % (cname, nm, i, live[nm], got, wd))
+        # bookkeeping: the evaluator holds exactly the variables / parameters the remaining constraints mention; every reference count is the number of
+        # constraints that recorded the leaf (a leaf incremented but not recorded is never released; one recorded twice is released too early)
+        ev_ = I.getattr_(m, "_evaluator")
+        mentioned = set()
+        for e in ref.values():
+            for ex_ in ([x_[1] for x_ in e] + [x_[0] for x_ in e if x_[0] is not True] if isinstance(e, list) else [e]):
+                mentioned |= {str(s_) for s_ in ex_.free_symbols}
+        held = {k_: len(v_) for k_, v_ in ev_.leaves.items()}
+        want_held = {"var": len(mentioned & {"x", "y", "z"}), "param": len(mentioned & {"p", "q"})}
+        if held["var"] != want_held["var"] or held["param"] != want_held["param"]:
+            bad_.append("the evaluator holds %d variables / %d parameters, the constraints mention %d / %d" % (held["var"], held["param"], want_held["var"], want_held["param"]))
+        counts = I.getattr_(m, "_refcounts")
+        recs = [I.getattr_(m, a_) for a_ in ("_vars_referenced_by_con", "_params_referenced_by_con", "_floats_referenced_by_con")]
+        for leaf, cnt in list(counts.items()):
+            n_rec = sum(1 for rec in recs for con_, set_ in rec.items() if any(l_ is leaf for l_ in I.iterate(set_)))
+            if cnt != n_rec:
+                bad_.append("reference count %r of %s but %d constraint(s) recorded it" % (cnt, I.getattr_(leaf, "name") or "a constant", n_rec))
+        if held["float"] != len(I.getattr_(m, "_float_cfloat_map")):
+            bad_.append("the evaluator holds %d constants, the model maps %d" % (held["float"], len(I.getattr_(m, "_float_cfloat_map"))))
+        state["n"] += 1
+        chk.expect(not bad_, "R-C15-12", "model history, %s: residuals and Jacobian equal direct evaluation at the reported indices" % step, loc(mfn),
+                   "aml.py / expr.py interpreted against a Python model of the compiled evaluator (sa/mockeval.py)", expected="%d residuals, %dx%d Jacobian as computed by sympy" % (len(ref), len(ref), len(live)),
+                   found=bad_[:4])
+
+    def setv(leaves, values, **new):
+        for nm, v in new.items():
+            values[nm] = v
+            I.setattr_(leaves[nm], "value", v)
+    try:
+        m = Model()
+        leaves = {"x": V(1.0), "y": V(2.0), "z": V(0.5), "p": P(1.5), "q": P(-0.75)}
+        values = {"x": 1.0, "y": 2.0, "z": 0.5, "p": 1.5, "q": -0.75}
+        for nm, leaf in leaves.items():
+            I.setattr_(m, nm, leaf)
+        x, y, z, p_, q = (leaves[k] for k in "xyzpq")
+        I.setattr_(m, "c1", Con(sub(add(mul(x, y), mul(2.0, p_)), 3.0)))          # 2.0*p: a constant times a parameter must stay a function of the parameter
+        I.setattr_(m, "c2", Con(sub(div(pw(add(x, z), 2.0), y), mul(fn("sin", z), q))))
+        ce = CE()
+        d_ = sub(x, y)
+        call(ce, "add_condition", ineq(d_, ub=0.0), add(mul(x, x), mul(z, p_)))
+        call(ce, "add_condition", ineq(d_, ub=2.0), sub(mul(fn("abs", x), z), y))
+        call(ce, "add_final_expr", add(fn("exp", mul(z, 0.1)), x))
+        I.setattr_(m, "c3", Con(ce))
+        ref = {"c1": sx * sy + 2 * sp_ - 3, "c2": (sx + sz) ** 2 / sy - sp.sin(sz) * sq,
+               "c3": [(sx - sy <= 0, sx * sx + sz * sp_), (sx - sy <= 2, sp.Abs(sx) * sz - sy), (True, sp.exp(sz / 10) + sx)]}
+        check("as built (first branch of the conditional constraint)", m, leaves, ref, values)
+        setv(leaves, values, x=3.0)
+        check("x changed through Var.value (second branch)", m, leaves, ref, values)
+        setv(leaves, values, x=6.5, z=-0.25)
+        check("x, z changed through Var.value (final branch, negative z)", m, leaves, ref, values)
+        # values loaded through the x vector, in the evaluator's own variable order
+        call(m, "set_structure")
+        order = sorted(("x", "y", "z"), key=lambda nm: I.getattr_(leaves[nm], "index"))
+        newv = {"x": 0.75, "y": 1.25, "z": 2.0}
+        call(m, "load_var_values_from_x", [newv[nm] for nm in order])
+        values.update(newv)
+        got = {nm: I.getattr_(leaves[nm], "value") for nm in order}
+        chk.expect(got == newv, "R-C15-12", "model history: values loaded from x are what Var.value reports", loc(mfn), expected=newv, found=got)
+        check("values loaded through the x vector", m, leaves, ref, values)
+        # the Python-side cache of x still holds 6.5 (the solver / load path writes the compiled object only): assigning that very value must reach the evaluator
+        setv(leaves, values, x=6.5)
+        check("x assigned the value its stale Python-side cache holds", m, leaves, ref, values)
+        setv(leaves, values, x=0.75)
+        # remove a constraint, add another one on the same variables
+        I.delattr_(m, "c2")
+        I.setattr_(m, "c4", Con(add(div(z, y), q)))
+        ref.pop("c2")
+        ref["c4"] = sz / sy + sq
+        check("c2 removed, c4 added", m, leaves, ref, values)
+        setv(leaves, values, p=-2.0, q=4.0)
+        check("parameters changed", m, leaves, ref, values)
+        # remove until x is no longer referenced: the evaluator must drop it, the Python object keeps its last value
+        I.delattr_(m, "c1")
+        I.delattr_(m, "c3")
+        I.setattr_(m, "c5", Con(sub(add(y, z), 1.0)))
+        ref = {"c4": sz / sy + sq, "c5": sy + sz - 1}
+        ev = I.getattr_(m, "_evaluator")
+        released = I.getattr_(x, "_c_obj") is None and len(ev.leaves["var"]) == 2
+        chk.expect(released and I.getattr_(x, "value") == values["x"], "R-C15-12", "model history: a variable no constraint refers to any more is released and keeps its value", loc(mfn),
+                   expected="x without a compiled object, 2 variables in the evaluator, x.value = %r" % values["x"], found="compiled object: %r, %d variables, x.value = %r" % (I.getattr_(x, "_c_obj"), len(ev.leaves["var"]), I.getattr_(x, "value")))
+        check("c1 and c3 removed, c5 added (x released)", m, {k: v for k, v in leaves.items() if k != "x"}, ref, values)
+        # and back: x is used again after its release
+        I.delattr_(m, "c5")
+        I.setattr_(m, "c6", Con(sub(mul(x, z), y)))
+        I.setattr_(m, "c7", Con(add(pw(x, 2.0), mul(y, p_))))
+        ref = {"c4": sz / sy + sq, "c6": sx * sz - sy, "c7": sx ** 2 + sy * sp_}
+        check("x used again after its release", m, leaves, ref, values)
+        left = {k: len(v) for k, v in ev.leaves.items()}
+        floats_needed = len(I.getattr_(m, "_float_cfloat_map"))
+        chk.expect(left["var"] == 3 and left["param"] == 2 and left["float"] == floats_needed, "R-C15-12", "model history: the evaluator holds exactly the leaves the remaining constraints refer to", loc(mfn),
+                   expected="3 variables, 2 parameters, %d constants" % floats_needed, found=left)
+    except MockEvaluatorError as e:
+        chk.bad("R-C15-12", "model history: the evaluator protocol is respected", loc(mfn), "the compiled evaluator would read outside a leaf list / use a freed object here", found=str(e))
+    except ProgramError as e:
+        if isinstance(e.exc, MockEvaluatorError):
+            chk.bad("R-C15-12", "model history: the evaluator protocol is respected", loc(mfn), found="%s (line %s)" % (e, e.lineno))
+        else:
+            raise ExtractError("R-C15-12: the interpreted model code raised %s (line %s)" % (e, e.lineno))
+    chk.floor("R-C15-12", 11)
 
 
 def dag_rules(repo, chk, rpn_info):
@@ -1329,6 +1471,10 @@ def dag_rules(repo, chk, rpn_info):
     chk.floor("R-C15-8", 8 + 3 + 1 + 7 + 1)
 
 WITNESSES = [
+    dict(name="conditional-constraint-jacobian-of-the-wrong-branch", file=AML, old="                jac = derivs[i][v]\n", new="                jac = derivs[0][v]\n", rule="R-C15-12"),
+    dict(name="removed-constraint-keeps-its-variables", file=AML, old="        for v in self._vars_referenced_by_con[con]:\n            self._decrement_var(v)\n        for p in self._params_referenced_by_con[con]:\n            self._decrement_param(p)\n        for f in self._floats_referenced_by_con[con]:\n            self._decrement_float(f)\n        del self._vars_referenced_by_con[con]\n        del self._params_referenced_by_con[con]\n        del self._floats_referenced_by_con[con]\n\n    def evaluate_residuals",
+         new="        for p in self._params_referenced_by_con[con]:\n            self._decrement_param(p)\n        for f in self._floats_referenced_by_con[con]:\n            self._decrement_float(f)\n        del self._vars_referenced_by_con[con]\n        del self._params_referenced_by_con[con]\n        del self._floats_referenced_by_con[con]\n\n    def evaluate_residuals", rule="R-C15-12"),
+    dict(name="leaf-indices-start-at-one", file=AML, old="        referenced_floats = OrderedSet()\n        ndx = 0\n        for v in con.expr.get_vars():", new="        referenced_floats = OrderedSet()\n        ndx = 1\n        for v in con.expr.get_vars():", rule="R-C15-12"),
     dict(name="merge-assumes-shared-operators-lead-the-list", file=EXPR, old="        present = None\n        for oper in other.operators():\n            if present is None:\n                present = set(self.operators())\n            if oper not in present:\n                present.add(oper)\n                self.append_operator(oper)\n",
          new="        n_shared = 0\n        for mine, theirs in zip(self.operators(), other.operators()):\n            if mine is not theirs:\n                break\n            n_shared += 1\n        for oper in itertools.islice(other.operators(), n_shared, None):\n            self.append_operator(oper)\n", rule="R-C15-8"),
     dict(name="merge-by-identity-list-preserving", file=EXPR, silent=True, old="        present = None\n        for oper in other.operators():\n            if present is None:\n                present = set(self.operators())\n            if oper not in present:\n                present.add(oper)\n                self.append_operator(oper)\n",
@@ -1348,7 +1494,7 @@ WITNESSES = [
     dict(name="pow-exponent-rule", file=EXPR, old="            der_dict[self._operand2] += der * val1**val2 * log(val1)", new="            der_dict[self._operand2] += der * val1**val2 * log(val2)", rule="R-C15-3"),
     dict(name="rsub-order", file=EXPR, old="        return Float(other) - self", new="        return self - Float(other)", rule="R-C15-3"),
     dict(name="rsub-zero-shortcut", file=EXPR, old="        if other == 0:\n            return -self\n        return Float(other) - self", new="        if other == 0:\n            return self\n        return Float(other) - self", rule="R-C15-3"),
-    dict(name="param-not-recorded", file=AML, old="            ccon.add_leaf(cparam)\n            referenced_params.add(p)", new="            ccon.add_leaf(cparam)", rule="R-C15-4"),
+    dict(name="param-not-recorded", file=AML, old="            ccon.add_leaf(cparam)\n            referenced_params.add(p)", new="            ccon.add_leaf(cparam)", rule="R-C15-12"),
     dict(name="decrement-wrong-map", file=AML, old="            cparam = self._param_cparam_map[p]\n            p._c_obj = None", new="            cparam = self._var_cvar_map[p]\n            p._c_obj = None", rule="R-C15-4"),
     dict(name="abs-derivative-preserving", file=EXPR, old="        der = der_dict[self]\n        der_dict[self._operand1] += der * val_dict[self._operand2]\n        der_dict[self._operand2] += der * val_dict[self._operand1]",
          new="        der = der_dict[self]\n        der_dict[self._operand2] += val_dict[self._operand1] * der\n        der_dict[self._operand1] += val_dict[self._operand2] * der", silent=True),
